@@ -1,4 +1,4 @@
-import Juniper.Proofs.ParDoFinal
+import Juniper.Proofs.ParWrap
 /-!
 # C13 — parallel.Do / DoContext / Map / MapContext (property theorems)
 
@@ -112,51 +112,6 @@ theorem do_bound (cfg : Cfg) (hc : cfg.code = doCode ∨ cfg.code = dcCode) (s :
 /-- non-vacuity: `DoContext(ctx, 2, 3, f)` with two calls running at once -/
 example : ∃ s, Reach ⟨dcCode, 2, 3, 8⟩ s ∧ running s = 2 :=
   ⟨_, reach_of_run Reach.init (ls := [.fetch 0, .fetch 1, .check 0, .check 1, .begin 1, .begin 0]) rfl, by decide⟩
-
-/-- **Positional.** When `Map`/`MapContext` has returned without error, `out` has length `n` and
-`out[i]` is the value returned by the one call of `f` for `in[i]`, for every `i < n`. The wrappers
-allocate `len(in)` slots, write `out[i] = f(in[i])` and pass `len(in)` and the parallelism through
-(regenerated presence facts). -/
-theorem map_positional (cfg : Cfg) (hc : cfg.code = doCode ∨ cfg.code = dcCode) (hg : 1 ≤ cfg.gmp)
-    (s : St) (h : Reach cfg s) (hret : s.ret = some none)
-    (_hw : mapStructural = true ∧ mapContextStructural = true := by decide) :
-    s.out.length = cfg.n ∧
-    ∀ i, i < cfg.n → ∃ v, s.out[i]? = some (some v) ∧ (i, Res.ok v) ∈ s.ended ∧ endedCount s i = 1 := by
-  have hs : cfg.code.Sound := by pardo_sound hc
-  have h2 := inv2 hs h
-  have h4 := inv4 hs h
-  have h6 := inv6 hs h
-  have hne : s.ret ≠ none := by simp [hret]
-  have hD := h2.D hne
-  have heg := h2.R hret
-  have hre : cnt isRetErr s.ws = 0 := by
-    have := countP_le_cnt_notDone isRetErr (by simp [isRetErr]) s.ws
-    unfold cnt at *; omega
-  have hclean : hasFail s = false ∧ s.skipped = [] := by
-    by_cases hcl : hasFail s = true ∨ s.skipped ≠ []
-    · rcases h4.F1 hcl with h' | h' | ⟨e, h'⟩
-      · exact absurd heg h'
-      · omega
-      · rw [hret] at h'; simp at h'
-    · constructor
-      · cases hf : hasFail s <;> simp_all
-      · cases hk : s.skipped <;> simp_all
-  refine ⟨h6.O1, ?_⟩
-  intro i hi
-  have ⟨_, hend⟩ := all_once_of_clean hs hg h hne hclean.1 hclean.2 i hi
-  have hpos : 0 < endedCount s i := by omega
-  obtain ⟨⟨j, r⟩, hm, hj⟩ := List.countP_pos_iff.1 hpos
-  simp at hj; subst hj
-  cases r with
-  | ok v => exact ⟨v, h6.O2 j v hm, hm, hend⟩
-  | err k =>
-    have := (noFailure_iff s).2 hclean.1 _ hm
-    simp [Res.isErr] at this
-
-/-- non-vacuity: `MapContext(ctx, 2, [a, b], f)`, second element first -/
-example : ∃ s, Reach ⟨dcCode, 2, 2, 8⟩ s ∧ s.ret = some none ∧ s.out = [some 10, some 11] :=
-  ⟨_, reach_of_run Reach.init (ls := [.fetch 0, .fetch 1, .check 0, .check 1, .begin 1, .begin 0, .fEnd 1 (.ok 11),
-      .fEnd 0 (.ok 10), .fetch 0, .fetch 1, .ret]) rfl, by decide, by decide⟩
 
 /-- **Barrier.** Once the call has returned, no call of `f` is in progress and every call that
 began has returned (`Wait` returns only when every worker function has returned; visibility of the
@@ -366,5 +321,185 @@ theorem doContext_at_most_Pminus1_start_cancelled (cfg : Cfg) (hc : cfg.code = d
 example : ∃ s, Reach ⟨dcCode, 3, 6, 8⟩ s ∧ s.callerCancelled = false ∧ startedCancelled s = 2 :=
   ⟨_, reach_of_run Reach.init (ls := [.fetch 0, .fetch 1, .fetch 2, .check 0, .check 1, .check 2, .begin 0,
       .fEnd 0 (.err 1), .egDone 0, .begin 1, .begin 2]) rfl, by decide, by decide⟩
+
+/-! ## The wrappers `Map` / `MapContext`
+
+`Juniper.Model.ParWrap`: the wrapper LTS `wstep` runs the `Do` / `DoContext` LTS above with
+`n := len(in)` and the wrapper's `parallelism` (both through the regenerated argument expressions) and
+does what the regenerated callback does: the user's `f` is called on `in[readIdx i]` with the context the
+binder facts say, its value is stored at `out[writeIdx i]`. `mapWrapper` / `mapContextWrapper` are the two
+wrappers as they are in the source now; `WCfg` = the wrapper, `parallelism : Int`, `in : List α` (any
+element type), `GOMAXPROCS`. `s.calls` = the calls of the user's `f` in the order they began (callee's
+index, element, context state at entry); `s.wret` = what the wrapper has returned. -/
+section Wrappers
+open Juniper.Model.ParWrap Juniper.Proofs.ParWrap
+variable {α : Type}
+
+/-- **Positional.** For `Map` and `MapContext`, all `parallelism : Int`, all `in`, every schedule, every
+reachable state:
+
+* the callee runs with `n = len(in)` and the wrapper's `parallelism` (regenerated arguments);
+* no index expression of the callback ever leaves its slice (`panic = false`), `out` has `len(in)` slots;
+* every call of the user's `f` is for an index `i < len(in)` and receives `in[i]`;
+* the wrapper returns exactly when the callee does: `out` with a nil error if the callee returned nil,
+  `nil` with the callee's error otherwise (`MapContext` only);
+* when it has returned without error, for every `i < len(in)`: `out[i]` is the value returned by the one
+  call of `f` for `in[i]` (exactly one call began for `i`, it got `in[i]`, exactly one ended, with that value).
+
+Depends on the regenerated wrapper facts through `Wrapper.Sound` (proved here by `wrapper_sound_ex`: write
+index, read index, allocation length, argument expressions, binders, statement shapes, `return`s) and on
+`Code.Sound` of the callee (`pardo_sound`). Model shape, not content: that the callback calls `f` once,
+synchronously, and stores its value (the statement shapes `mapCbShape` / `mcCbShape` pin the text). -/
+theorem map_positional (wc : WCfg α) (hw : wc.w = mapWrapper ∨ wc.w = mapContextWrapper) (hg : 1 ≤ wc.gmp)
+    (s : WSt α) (h : WReach wc s) :
+    (wc.cfg.n = wc.inp.length ∧ wc.cfg.P = wc.P) ∧
+    (s.panic = false ∧ s.out.length = wc.inp.length) ∧
+    (∀ c ∈ s.calls, c.idx < wc.inp.length ∧ wc.inp[c.idx]? = some c.arg) ∧
+    ((s.wret = none ↔ s.core.ret = none) ∧
+      (∀ o, s.wret = some ⟨o, none⟩ → o = some s.out ∧ s.core.ret = some none) ∧
+      (∀ o e, s.wret = some ⟨o, some e⟩ → o = none ∧ s.core.ret = some (some e))) ∧
+    (∀ o, s.wret = some ⟨o, none⟩ → ∀ i, i < wc.inp.length →
+      ∃ v a, s.out[i]? = some (some v) ∧ (i, Res.ok v) ∈ s.core.ended ∧ endedCount s.core i = 1 ∧
+        callCount s i = 1 ∧ wc.inp[i]? = some a ∧ (⟨i, a, false⟩ ∈ s.calls ∨ ⟨i, a, true⟩ ∈ s.calls)) := by
+  obtain ⟨ctx, hws⟩ : ∃ ctx, wc.w.Sound ctx := by wrapper_sound_ex hw
+  have hc : wc.cfg.code = doCode ∨ wc.cfg.code = dcCode := sound_codes hws
+  have hs : wc.cfg.code.Sound := by pardo_sound hc
+  have hi := winv hws hs h
+  have hcore := core_reach h
+  have hn := cfg_n hws
+  have hwr := wret_cases hws hs h
+  refine ⟨⟨hn, hws.P _⟩, ⟨hi.P0, hi.O1⟩, ?_, ⟨hwr.1, hwr.2.1, fun o e he => ⟨(hwr.2.2 o e he).1, (hwr.2.2 o e he).2.2⟩⟩, ?_⟩
+  · intro c hcm
+    have h2 := hi.C2 c hcm
+    exact ⟨(List.getElem?_eq_some_iff.1 h2).1, h2⟩
+  · intro o ho i hlt
+    have hret := (hwr.2.1 o ho).2
+    have hcl := clean_of_ret_nil hs hcore hret
+    have ⟨hb, hend⟩ := all_once_of_clean hs hg hcore (by simp [hret]) hcl.1 hcl.2 i (hn ▸ hlt)
+    have hpos : 0 < endedCount s.core i := by omega
+    obtain ⟨⟨j, r⟩, hm, hj⟩ := List.countP_pos_iff.1 hpos
+    simp at hj; subst hj
+    have hcc : callCount s j = 1 := by rw [callCount_eq hi]; exact hb
+    obtain ⟨c, hcm, hcj⟩ := List.countP_pos_iff.1 (by rw [← callCount, hcc]; omega : 0 < s.calls.countP (·.idx == j))
+    simp at hcj
+    have hca := hi.C2 c hcm
+    rw [hcj] at hca
+    cases r with
+    | ok v =>
+      refine ⟨v, c.arg, hi.O2 j v hm, hm, hend, hcc, hca, ?_⟩
+      obtain ⟨ci, ca, cc⟩ := c
+      simp at hcj; subst hcj
+      cases cc
+      · exact Or.inl hcm
+      · exact Or.inr hcm
+    | err k =>
+      have := (noFailure_iff s.core).2 hcl.1 _ hm
+      simp [Res.isErr] at this
+
+/-- non-vacuity: `MapContext(ctx, 2, ["a", "b"], f)`, second element first; the wrapper returns `out` -/
+example : ∃ s, WReach (⟨mapContextWrapper, 2, ["a", "b"], 8⟩ : WCfg String) s ∧
+    s.wret = some ⟨some [some 10, some 11], none⟩ ∧
+    s.calls = [⟨1, "b", false⟩, ⟨0, "a", false⟩] :=
+  ⟨_, wreach_of_run WReach.init (ls := [.fetch 0, .fetch 1, .check 0, .check 1, .begin 1, .begin 0, .fEnd 1 (.ok 11),
+      .fEnd 0 (.ok 10), .fetch 0, .fetch 1, .ret]) rfl, by decide, by decide⟩
+
+/-- **Exactly once, bounded, barrier — for the wrappers** (corollaries of `do_exactly_once`, `do_bound`,
+`do_barrier` through the wrapper: the calls of the user's `f` are the callee's calls of the callback, one
+for one, which is conjunct `C1` of the wrapper invariant and rests on the regenerated callback shape).
+In every reachable state of `Map` / `MapContext`: no element is handed to `f` twice or from outside `in`;
+once the wrapper has returned with no failed call and a live caller context, `f` was called exactly once
+for every element and every call has returned; the calls of `f` in progress are at most
+`max(1, parallelism)` (`GOMAXPROCS` for `parallelism ≤ 0`); once the wrapper has returned no call of `f` is
+in progress and every call that began has ended. -/
+theorem map_exactly_once_bound_barrier (wc : WCfg α) (hw : wc.w = mapWrapper ∨ wc.w = mapContextWrapper)
+    (hg : 1 ≤ wc.gmp) (s : WSt α) (h : WReach wc s) :
+    (∀ i, callCount s i ≤ 1 ∧ (0 < callCount s i → i < wc.inp.length)) ∧
+    (s.wret ≠ none → noFailure s.core → s.core.callerCancelled = false →
+      ∀ i, i < wc.inp.length → callCount s i = 1 ∧ endedCount s.core i = 1) ∧
+    ((running s.core : Int) ≤ max 1 (if wc.P ≤ 0 then (wc.gmp : Int) else wc.P)) ∧
+    (s.wret ≠ none → running s.core = 0 ∧ ∀ i, endedCount s.core i = callCount s i) := by
+  obtain ⟨ctx, hws⟩ : ∃ ctx, wc.w.Sound ctx := by wrapper_sound_ex hw
+  have hc : wc.cfg.code = doCode ∨ wc.cfg.code = dcCode := sound_codes hws
+  have hs : wc.cfg.code.Sound := by pardo_sound hc
+  have hi := winv hws hs h
+  have hcore := core_reach h
+  have hn := cfg_n hws
+  have hwr := (wret_cases hws hs h).1
+  have hP : wc.cfg.P = wc.P := hws.P _
+  have hE := do_exactly_once wc.cfg hc hg s.core hcore
+  have hB := (do_bound wc.cfg hc s.core hcore).2.2.2.2
+  refine ⟨?_, ?_, ?_, ?_⟩
+  · intro i; rw [callCount_eq hi, ← hn]; exact hE.1 i
+  · intro hret hnf hcc i hlt
+    rw [callCount_eq hi]
+    exact hE.2 (fun hx => hret (hwr.2 hx)) hnf hcc i (hn ▸ hlt)
+  · rw [hP] at hB; exact hB
+  · intro hret
+    have := do_barrier wc.cfg hc s.core hcore (fun hx => hret (hwr.2 hx))
+    exact ⟨this.1, fun i => by rw [callCount_eq hi]; exact this.2 i⟩
+
+/-- non-vacuity: `Map(0, [7, 8, 9], f)` under `GOMAXPROCS = 2`: two calls of `f` in progress -/
+example : ∃ s, WReach (⟨mapWrapper, 0, [7, 8, 9], 2⟩ : WCfg Nat) s ∧ running s.core = 2 ∧
+    s.calls = [⟨1, 8, false⟩, ⟨0, 7, false⟩] :=
+  ⟨_, wreach_of_run WReach.init (ls := [.fetch 0, .fetch 1, .begin 1, .begin 0]) rfl, by decide, by decide⟩
+
+/-- **`MapContext`: the context handed to `f`, first error.** In every reachable state of `MapContext`:
+
+1. every call of the user's `f` received the context `DoContext` hands to its callback — the errgroup's
+   context on the parallel path — and not, say, the caller's: call by call, the state of `f`'s context at
+   entry is the state `DoContext` recorded for its callback (`s.calls` ↦ `s.core.begun`), and at any
+   moment `f`'s context is cancelled iff that context is (`userCtxCancelled = ctxCancelled`). This is the
+   regenerated binder fact `mcCtxSource = "closureParam"` (with `func(_ context.Context, i int)` the
+   argument `ctx` of `f(ctx, in[i])` is the *caller's* context: `"callerCtx"`, and this theorem fails);
+2. hence `doContext_cancels_others` transfers: on the parallel path, once errgroup has recorded an error
+   the context handed to `f` is cancelled, and every call of `f` that begins from then on is recorded
+   with `cancelled = true`;
+3. if `MapContext` returns an error, the slice is `nil` and the error is one a call of `f` returned, or the
+   caller's context error after the caller cancelled; if it returns a nil error no call failed. -/
+theorem mapContext_ctx_and_first_error (wc : WCfg α) (hw : wc.w = mapContextWrapper)
+    (s : WSt α) (h : WReach wc s) :
+    (s.calls.map (fun c => (⟨c.idx, c.cancelled⟩ : Begun)) = s.core.begun ∧
+      userCtxCancelled wc s = ctxCancelled s.core ∧ s.callerCancelled = s.core.callerCancelled) ∧
+    (s.core.seq = false → s.core.egErr ≠ none →
+      userCtxCancelled wc s = true ∧
+      ∀ w s', wstep wc s (.begin w) = some s' → ∃ c, s'.calls = s.calls ++ [c] ∧ c.cancelled = true) ∧
+    ((∀ o e, s.wret = some ⟨o, some e⟩ → o = none ∧
+        ((∃ k i, e = .f k ∧ (i, Res.err k) ∈ s.core.ended) ∨ (e = .ctxCaller ∧ s.callerCancelled = true))) ∧
+      (∀ o, s.wret = some ⟨o, none⟩ → noFailure s.core)) := by
+  have hws : wc.w.Sound true := by wrapper_sound hw
+  have hc : wc.cfg.code = doCode ∨ wc.cfg.code = dcCode := sound_codes hws
+  have hs : wc.cfg.code.Sound := by pardo_sound hc
+  have hi := winv hws hs h
+  have hcore := core_reach h
+  have hwr := wret_cases hws hs h
+  have hux : userCtxCancelled wc s = ctxCancelled s.core := by simp [userCtxCancelled, hws.ctxSrc rfl]
+  have hcc := hi.CC rfl
+  have hE := doContext_error_is_returned_by_some_call_or_caller_ctx wc.cfg hc s.core hcore
+  refine ⟨⟨hi.C1, hux, hcc⟩, ?_, ⟨?_, ?_⟩⟩
+  · intro hseq heg
+    have hC := (doContext_cancels_others wc.cfg hc s.core hcore).1 hseq heg
+    refine ⟨by rw [hux]; exact hC.2.1, ?_⟩
+    intro w s' hst
+    obtain ⟨i, a, hcalls⟩ := wstep_begin_calls hws (inv1 hs hcore) hi hst
+    refine ⟨_, hcalls, ?_⟩
+    simp [sound_ctxMode hws, hux, hC.2.1]
+  · intro o e he
+    have ⟨h1, _, h3⟩ := hwr.2.2 o e he
+    refine ⟨h1, ?_⟩
+    rw [hcc]
+    exact hE.1 e h3
+  · intro o ho
+    exact hE.2 (hwr.2.1 o ho).2
+
+/-- non-vacuity: `MapContext(ctx, 2, [7, 8, 9, 10], f)`: `f(8)` fails, errgroup records it, the other worker
+(past its `ctx.Err()` test) calls `f(9)` with a cancelled context; the wrapper returns `nil` and that error -/
+example : ∃ s s', WReach (⟨mapContextWrapper, 2, [7, 8, 9, 10], 8⟩ : WCfg Nat) s ∧ s.core.egErr ≠ none ∧
+    s.calls = [⟨0, 7, false⟩, ⟨1, 8, false⟩, ⟨2, 9, true⟩] ∧
+    wrun ⟨mapContextWrapper, 2, [7, 8, 9, 10], 8⟩ s [.fEnd 0 (.ok 1), .fetch 0, .check 0, .egDone 0, .ret] = some s' ∧
+    s'.wret = some ⟨none, some (.f 5)⟩ :=
+  ⟨_, _, wreach_of_run WReach.init (ls := [.fetch 0, .fetch 1, .check 0, .check 1, .begin 0, .begin 1, .fEnd 0 (.ok 1),
+      .fetch 0, .check 0, .fEnd 1 (.err 5), .egDone 1, .begin 0]) rfl, by decide, by decide, rfl, by decide⟩
+
+end Wrappers
 
 end Juniper.Props.C13
